@@ -190,9 +190,28 @@ fn main() {
     let stdout = std::io::stdout();
     let mut out = std::io::BufWriter::new(stdout.lock());
     let mut st = Stats { total: 0, diffs: 0, oracle: 0, families: BTreeMap::new(), samples: BTreeMap::new(), distinct_nontrivial: HashSet::new(), max_case_heap: 0, hangs: 0 };
+    // in-process engines have no supervisor: a case that never returns would hang the whole check. A watchdog thread
+    // ends the run (exit status 97, the case on stderr) when one case takes more than three times the per-case limit.
+    let current: std::sync::Arc<std::sync::Mutex<(u64, std::time::Instant, String)>> =
+        std::sync::Arc::new(std::sync::Mutex::new((0, std::time::Instant::now(), String::new())));
+    if !isolated {
+        let cur = current.clone();
+        std::thread::spawn(move || loop {
+            std::thread::sleep(Duration::from_secs(2));
+            let g = cur.lock().unwrap();
+            if g.0 > 0 && g.1.elapsed() > Duration::from_secs(3 * CASE_TIMEOUT_S) {
+                eprintln!("WATCHDOG: case {} gave no result within {} s (in-process engine, the run is abandoned): {}", g.0, 3 * CASE_TIMEOUT_S,
+                          g.2.chars().take(240).collect::<String>());
+                std::process::exit(97);
+            }
+        });
+    }
+    let mut case_no: u64 = 0;
     for line in stdin.lock().lines() {
         let line = line.expect("stdin");
         if line.is_empty() { continue; }
+        case_no += 1;
+        if !isolated { *current.lock().unwrap() = (case_no, std::time::Instant::now(), line.clone()); }
         let f: Vec<&str> = line.split('\t').collect();
         if f[0] == "K" {
             // the model itself violates the stated property on this input (model-level counterexample)
